@@ -1,6 +1,7 @@
 package checks
 
 import (
+	"bytes"
 	stdelliptic "crypto/elliptic"
 	"fmt"
 	"math/big"
@@ -181,8 +182,25 @@ func runC17(c *core.Ctx) {
 				scalars = append(scalars, sc{fmt.Sprintf("lambda%d%+d", li+1, d), v.Mod(v, n).Bytes()})
 			}
 		}
+		// scalars whose leading bits are a multiple of the group order: a left-to-right ladder holds the identity in the
+		// middle of the computation (j*n + r, and (j*n)*2^s + r: the accumulator is the identity after the bits of j*n)
+		longFrom := len(scalars)
+		for j := int64(0); j <= 20; j++ {
+			for r := int64(0); r <= 15; r++ {
+				v := new(big.Int).Add(new(big.Int).Mul(n, big.NewInt(j)), big.NewInt(r))
+				scalars = append(scalars, sc{fmt.Sprintf("%dn+%d", j, r), v.Bytes()})
+			}
+		}
+		for _, j := range []int64{1, 2, 3, 5, 255, 256} {
+			for s := uint(1); s <= 9; s++ {
+				for _, r := range []int64{0, 1, 3, 1<<s - 1, 1 << (s - 1)} {
+					v := new(big.Int).Add(new(big.Int).Lsh(new(big.Int).Mul(n, big.NewInt(j)), s), big.NewInt(r))
+					scalars = append(scalars, sc{fmt.Sprintf("(%dn<<%d)+%d", j, s, r), v.Bytes()})
+				}
+			}
+		}
 		bases := []np{pts[1], pts[2], pts[3], pts[len(pts)-1], pts[len(pts)-4], pts[33]}
-		for _, s := range scalars {
+		for si, s := range scalars {
 			k := new(big.Int).SetBytes(s.b)
 			kr := new(big.Int).Mod(k, n)
 			class := "generic"
@@ -212,9 +230,22 @@ func runC17(c *core.Ctx) {
 			}
 			sb := append([]byte(nil), s.b...)
 			run("ScalarBaseMult", pts[1], func() (*big.Int, *big.Int) { return cur.ScalarBaseMult(sb) })
-			for _, b := range bases {
+			useBases := bases
+			if si >= longFrom && !c.Thorough() {
+				useBases = bases[:2]
+			}
+			for _, b := range useBases {
 				b := b
-				run("ScalarMult", b, func() (*big.Int, *big.Int) { return cur.ScalarMult(cp(b.pt.X), cp(b.pt.Y), sb) })
+				bx, by := cp(b.pt.X), cp(b.pt.Y)
+				run("ScalarMult", b, func() (*big.Int, *big.Int) { return cur.ScalarMult(bx, by, sb) })
+				if bx.Cmp(b.pt.X) != 0 || by.Cmp(b.pt.Y) != 0 || !bytes.Equal(sb, s.b) {
+					c.Violate(fmt.Sprintf("C17/%s/ScalarMult/argument-modified", cname), fmt.Sprintf("ScalarMult(%s, %s) changed the caller's point or scalar: now (%s,%s)", b.name, s.name, bx.Text(16), by.Text(16)), map[string]interface{}{"copy": cname, "P": enc(b), "scalar_hex": fmt.Sprintf("%x", s.b)}, "", nil)
+				}
+			}
+			if g := cur.Params(); g.Gx.Cmp(ref.G().X) != 0 || g.Gy.Cmp(ref.G().Y) != 0 {
+				c.Violate(fmt.Sprintf("C17/%s/params-modified", cname), fmt.Sprintf("after ScalarBaseMult/ScalarMult with scalar %s the curve parameters hold another base point: (%s,%s)", s.name, g.Gx.Text(16), g.Gy.Text(16)), map[string]interface{}{"copy": cname, "scalar_hex": fmt.Sprintf("%x", s.b)}, "", nil)
+				g.Gx.Set(ref.G().X)
+				g.Gy.Set(ref.G().Y)
 			}
 		}
 		// ---- IsOnCurve ----
